@@ -26,6 +26,20 @@ CHECKS = [
              "(slice and chunked readers), and decode events of random schemas/values/layouts/corruptions are trace-validated by TLC against Dec.",
      "note": TLC_NOTE,
      "technique": "TLA+ spec (AvroBinary.tla Dec/Layouts/Mal) + TLC bounded enumeration replayed into the code + TLC trace validation of recorded decode events"},
+    {"property_id": "C13", "level": "model_checking", "design_ref": "DESIGN.md §6 C13",
+     "text": "For each record schema of the scope TLC enumerates ALL sequences of length <= fields+1 over (field names + unknown) as struct, "
+             "map(entry) and map(key/value) with rotating field presentations (nested out-of-order records, omissions, duplicates, failing values), "
+             "computes RecordAbs (SerdeModel!Den) and checks that the implementation-shaped reordering machinery (SerImpl.tla) refines it; every cell "
+             "is executed on the real serializer. Wide random records in random orders are trace-validated by TLC.",
+     "note": TLC_NOTE,
+     "technique": "TLA+ spec (SerdeModel!DenRecord = RecordAbs, SerImpl.tla refinement) checked by TLC, exhaustive presentation enumeration replayed into the serializer, TLC trace validation"},
+    {"property_id": "C14", "level": "model_checking", "design_ref": "DESIGN.md §6 C14",
+     "text": "TLC model-checks the pools of the serializer configuration (SerImpl.tla / MC_SerPool.tla): from every reachable pool state, every call of "
+             "the record catalogue x every sink budget keeps the pools clean and behaves as on fresh pools (two model-level mutants must be caught). "
+             "The real code runs seeded sessions on one shared configuration (failing values, sink failing after n bytes, must-ok probes); every call is "
+             "judged by the stateless specification and the sessions are trace-validated by TLC (Trace_SerPool).",
+     "note": TLC_NOTE,
+     "technique": "TLA+ state machine of the buffer pools model-checked by TLC (with mutants) + sessions on the real configuration trace-validated by TLC against the stateless spec"},
     {"property_id": "C12", "level": "model_checking", "design_ref": "DESIGN.md §6 C12",
      "text": "TLC checks that the implementation-shaped skipping semantics (AvroSkip.tla: unvalidated strings, unsigned varints, jumping over sized blocks) "
              "ends exactly where Dec ends for every layout of every enumerated value; the real decoder is run with every sub-tree (two levels) ignored, "
